@@ -3,6 +3,7 @@ CONSTANTS
   NK = 3
   NST = 3
   NSU = 2
+  EmptyKey = 2
   MaxConn = 10
   MaxOps = 40
   Amounts = {0, 1, 7, 1400}
